@@ -117,7 +117,22 @@ func runC32(r *simkit.Run) {
 				budget = tp.Range(1, 2)
 			}
 			commitFault := false
+			// sometimes one proxy is cut off from the control plane for the whole change (alive, serving its
+			// clients, but every request to its admin port is lost): no number of retries reaches it
+			cutOff := -1
+			if !strict && tp.Chance(1, 6) {
+				cutOff = tp.Choose(nP)
+				r.Fault("proxy-unreachable-for-the-whole-change")
+			}
 			w.fault = func(p *proxyNode, kind, path string) string {
+				if p.idx == cutOff && kind != "other" {
+					for _, l := range w.log {
+						if strings.HasPrefix(l, fmt.Sprintf("prepare proxy%d 200", p.idx)) {
+							commitFault = true // (cannot happen: its prepare is never answered)
+						}
+					}
+					return "request-lost"
+				}
 				if budget == 0 || kind == "other" || !tp.Chance(1, 4) {
 					return ""
 				}
